@@ -1,0 +1,49 @@
+//go:build verif
+
+package reflection
+
+// Contracts for govc (the VC generator under /verif). Comment-only: this file compiles to nothing
+// with or without the "verif" build tag. Every line starting with //@ is contract text.
+//
+//@ field Analyzer.cache guarded_by mu contents map[uintptr]*ConstructorInfo
+//@ field Analyzer.invokerCache guarded_by invokerMu contents map[uintptr]*ConstructorInvoker
+//
+// The resolver handed to the invoker is the scope: resolving a dependency may run user constructors.
+//@ func DependencyResolver.Get
+//@   nocheck
+//@   interferes
+//@   nopanic
+//@ func DependencyResolver.GetKeyed
+//@   nocheck
+//@   interferes
+//@   nopanic
+//@ func DependencyResolver.GetGroup
+//@   nocheck
+//@   interferes
+//@   nopanic
+//
+//@ func Analyzer.Analyze
+//@   mode conc
+//@   safety off
+//@   nopanic
+//@   modifies ConstructorInfo.*, map[uintptr]*ConstructorInfo, alloc, Dependency.*
+//@   ensures[C15] error_or_info: (result1 == nil) <==> (result0 != nil)
+//
+//@ func Analyzer.GetInvoker
+//@   mode conc
+//@   safety off
+//@   nopanic
+//@   modifies ConstructorInvoker.*, ParamObjectBuilder.*, map[uintptr]*ConstructorInvoker, alloc
+//@   ensures[C15] nonnil: result != nil
+//
+//@ func ConstructorInvoker.Invoke
+//@   mode conc
+//@   interferes
+//@   nopanic
+//@   requires args: ci != nil && info != nil
+//
+//@ func ResultObjectProcessor.ProcessResultObject
+//@   safety off
+//@   nopanic
+//@   modifies alloc
+//@   ensures regs_ok: result1 != nil ==> isnil(result0)
